@@ -197,6 +197,14 @@ def cases(seed, tier):
         es = [b.value(t) for t in tys]
         b.st.append({"k": "arrnew", "x": "r", "es": es})
         out.append((b.done("r", ["new"]), f"(CNew {glist([g(t) for t in tys])})"))
+    # a literal and a public value of the same base type: different types of the DSL (their MIR names coincide)
+    for base in ("Int", "UInt", "Bool"):
+        for order in ((("Const", base), ("Public", base)), (("Public", base), ("Const", base)), (("Public", base), ("Public", base), ("Const", base))):
+            b = B()
+            tys = [S(m, bb) for m, bb in order]
+            es = [b.value(t) for t in tys]
+            b.st.append({"k": "arrnew", "x": "r", "es": es})
+            out.append((b.done("r", ["new", "literal-and-public"]), f"(CNewLiteralAndPublic {glist([g(t) for t in tys])})"))
     # n-tuple index
     nts = [[ELTS[0]], [ELTS[0], ELTS[3], ELTS[4]], [ELTS[1], ("arr", ELTS[0], 2), S("Const", "Int")],
            [("nt", [ELTS[0], ELTS[1]]), ("obj", [("a", ELTS[2])])]]
@@ -220,6 +228,28 @@ def cases(seed, tier):
             assert f"r = {x}[{i}]" in text, text
             pr["text"] = text.replace(f"r = {x}[{i}]", f"r = {x}[{spelt}]")
             out.append((pr, f"(CIndex {glist([g(t) for t in tys])} {gz(i)})"))
+    # the list / dict handed to NTuple.new / Object.new is changed by the caller afterwards: the collection is what it
+    # was built from (two components, one field), so position 2 / field g do not exist
+    SI2 = S("Secret", "Int")
+    b = B()
+    x1, x2 = b.value(SI2), b.value(SI2)
+    b.st.append({"k": "ntnew", "x": "t", "es": [x1, x2]})
+    b.st.append({"k": "bin", "x": "extra", "op": "OAdd", "a": x1, "b": x2})
+    b.st.append({"k": "idx", "x": "r", "a": "t", "i": 2})
+    pr = b.done("r", ["index", "list-changed-after-new"])
+    text = _surface.to_python(pr)
+    assert f"t = NTuple.new([{x1}, {x2}])" in text and "r = t[2]" in text, text
+    pr["text"] = text.replace(f"t = NTuple.new([{x1}, {x2}])", f"lst = [{x1}, {x2}]\n    t = NTuple.new(lst)").replace("    r = t[2]", "    lst.append(extra)\n    r = t[2]")
+    out.append((pr, f"(CIndex {glist([g(SI2), g(SI2)])} {gz(2)})"))
+    b = B()
+    x1, x2 = b.value(SI2), b.value(SI2)
+    b.st.append({"k": "objnew", "x": "o", "fs": [("f", x1)]})
+    b.st.append({"k": "fld", "x": "r", "a": "o", "f": "g"})
+    pr = b.done("r", ["field", "dict-changed-after-new"])
+    text = _surface.to_python(pr)
+    assert "o = Object.new({'f': " + x1 + "})" in text and "r = o.g" in text, text
+    pr["text"] = text.replace("o = Object.new({'f': " + x1 + "})", "dct = {'f': " + x1 + "}\n    o = Object.new(dct)").replace("    r = o.g", "    dct['g'] = " + x2 + "\n    r = o.g")
+    out.append((pr, f"(CField {glist(['(' + gstr('f') + ', ' + g(SI2) + ')'])} {gstr('g')})"))
     # object fields
     objs = [[("a", ELTS[0])], [("a", ELTS[0]), ("b", ("arr", ELTS[1], 2)), ("c", S("Const", "Int"))],
             [("k1", ("nt", [ELTS[0]]))]]
